@@ -13,11 +13,18 @@ use vmon::{Report, Rng};
 struct CountWaker {
     wakes: AtomicU64,
 }
+/// wake calls that arrived when no reference to the original was left (the harness keeps the
+/// allocation - not the value - alive through a Weak, so this is observable without a crash)
+static TOUCHED_AFTER_RELEASE: AtomicU64 = AtomicU64::new(0);
 impl Wake for CountWaker {
     fn wake(self: Arc<Self>) {
         self.wakes.fetch_add(1, Ordering::SeqCst);
     }
     fn wake_by_ref(self: &Arc<Self>) {
+        if Arc::strong_count(self) == 0 {
+            TOUCHED_AFTER_RELEASE.fetch_add(1, Ordering::SeqCst);
+            return;
+        }
         self.wakes.fetch_add(1, Ordering::SeqCst);
     }
 }
@@ -302,6 +309,10 @@ pub fn run_script(script: &[Op], kind: Kind, orphan: bool, rep: &mut Report) -> 
         }
         if weak.strong_count() != 0 {
             s.problems.push(("C19:clone-not-released".into(), format!("all wakers gone, original still has {} references", weak.strong_count())));
+        }
+        let t = TOUCHED_AFTER_RELEASE.swap(0, Ordering::SeqCst);
+        if t != 0 {
+            s.problems.push(("C19:original-touched-after-last-release".into(), format!("the caller's waker was woken {} time(s) after its last reference had been released", t)));
         }
     } else {
         for i in 1..SLOTS {
